@@ -3,6 +3,7 @@ from __future__ import annotations
 
 import ast
 import os
+import shutil
 import re
 
 from .. import impl
@@ -123,10 +124,29 @@ def run(ctx):
                 stats["python_statements_committed"] = len(cs)
                 stats["python_statements_generated"] = len(gs)
                 stats["python_comparisons"] = compare(res, "types.py", cs, gs, "py:")
-        # ---- rust (own fresh directory: histories of the output directory are C16's subject)
+        # ---- rust (own fresh directory: histories of the output directory are C16's subject), in the two
+        # configurations of the test directory: empty, and as in the repository (tests/rust/src/main.rs present,
+        # which is what `nox -s generate_rust` and the default --test-dir give the plugin)
+        for cfg in ("empty-test-dir", "repo-test-dir"):
+            rm(out)
+            out = scratch("lspverif-c05r-")
+            if cfg == "repo-test-dir":
+                src = os.path.join(impl.REPO, "tests", "rust", "src", "main.rs")
+                if not os.path.exists(src):
+                    continue
+                os.makedirs(os.path.join(tst, "src"), exist_ok=True)
+                shutil.copy(src, os.path.join(tst, "src", "main.rs"))
+            _rust(res, stats, out, tst, ctx, cfg)
+    finally:
         rm(out)
-        out = scratch("lspverif-c05r-")
+        rm(tst)
+    return _finish(res, stats)
+
+
+def _rust(res, stats, out, tst, ctx, cfg):
+    if True:
         r = run_cli("rust", out, tst, hashseed=str(1 + ctx.seed % 5))
+        stats["rust_configurations"] = stats.get("rust_configurations", []) + [cfg]
         if r.returncode != 0:
             res.add(Violation(PROP, "plugin-fails", "rust", "rust plugin exits %d: %s" % (r.returncode, (r.stderr or r.stdout)[-300:]),
                               {"engine": "BISIM", "plugin": "rust", "input": None}))
@@ -138,26 +158,27 @@ def run(ctx):
             else:
                 gen = open(gp, encoding="utf-8").read()
                 com = open(os.path.join(impl.REPO, "packages", "rust", "lsprotocol", "src", "lib.rs"), encoding="utf-8").read()
-                stats["rust_bytes_identical"] = gen == com
+                stats["rust_bytes_identical"] = stats.get("rust_bytes_identical", True) and gen == com
                 gi = [(rust_item_name(i), i) for i in rust_items(gen)]
                 ci = [(rust_item_name(i), i) for i in rust_items(com)]
                 stats["rust_items_committed"] = len(ci)
                 stats["rust_items_generated"] = len(gi)
-                stats["rust_comparisons"] = compare(res, "lib.rs", ci, gi, "rs:")
+                stats["rust_comparisons"] = stats.get("rust_comparisons", 0) + compare(res, "lib.rs", ci, gi, "rs:")
                 if gen != com and not any(v.site.startswith("rs:") for v in res.violations.values()):
                     res.add(Violation(PROP, "differs", "rs:bytes", "lib.rs: byte difference outside item bodies (whitespace / blank lines)",
                                       {"engine": "BISIM", "file": "lib.rs", "input": None}))
-    finally:
-        rm(out)
-        rm(tst)
+
+
+def _finish(res, stats):
     n = stats.get("python_comparisons", 0) + stats.get("rust_comparisons", 0)
     res.coverage = {
         "states": stats.get("python_statements_committed", 0) + stats.get("rust_items_committed", 0) + 1, "transitions": max(n, 1),
-        "traces_validated_against_impl": 2, "evaluations": max(n, 1),
+        "traces_validated_against_impl": 1 + len(stats.get("rust_configurations", [])), "evaluations": max(n, 1),
         "distinct_nontrivial": stats.get("python_statements_committed", 0) + stats.get("rust_items_committed", 0),
         "rule": "the python and rust plugins of the current tree are run through the real CLI on the committed model; every top-level statement "
                 "of types.py (AST, docstring whitespace normalised) and every item of lib.rs (after rustfmt --edition 2021; plus whole-file byte "
-                "equality) is compared pairwise in both directions. One configuration (the tree as it is): the degenerate end of the family.",
+                "equality) is compared pairwise in both directions; the rust plugin runs in both configurations of its test directory (empty; "
+                "tests/rust/src/main.rs present as in the repository's own workflow). One tree (as it is): the degenerate end of the family.",
         **stats, "exhaustive": True,
         "samples": [{"python_statement": "class Position", "rust_item": "struct Position"}],
     }
